@@ -226,6 +226,167 @@ func lockEvents(fd *ast.FuncDecl) []string {
 	return out
 }
 
+// returnSites lists every return statement of fd with the number of effects (store writes, count /
+// lastGroup updates, sqlite statements) that precede it in the source: "return false after 0 effects".
+func returnSites(fd *ast.FuncDecl) []string {
+	type ev struct {
+		pos token.Pos
+		ret string
+	}
+	var effPos []token.Pos
+	var rets []ev
+	ast.Inspect(fd.Body, func(n ast.Node) bool {
+		switch x := n.(type) {
+		case *ast.CallExpr:
+			s := src(x.Fun)
+			if strings.HasSuffix(s, ".groups.Put") || strings.HasSuffix(s, ".groups.Delete") || strings.HasSuffix(s, ".Write") ||
+				s == "mysql.InsertGroup" || s == "mysql.DeleteGroup" {
+				effPos = append(effPos, x.Pos())
+			}
+		case *ast.IncDecStmt:
+			if strings.HasSuffix(src(x.X), ".count") {
+				effPos = append(effPos, x.Pos())
+			}
+		case *ast.AssignStmt:
+			for _, l := range x.Lhs {
+				if ls := src(l); strings.HasSuffix(ls, ".lastGroup") || strings.HasSuffix(ls, ".count") {
+					effPos = append(effPos, x.Pos())
+				}
+			}
+		case *ast.ReturnStmt:
+			r := ""
+			for i, e := range x.Results {
+				if i > 0 {
+					r += ", "
+				}
+				r += src(e)
+			}
+			rets = append(rets, ev{x.Pos(), r})
+		case *ast.FuncLit:
+			return false
+		}
+		return true
+	})
+	var out []string
+	for _, r := range rets {
+		k := 0
+		for _, p := range effPos {
+			if p < r.pos {
+				k++
+			}
+		}
+		out = append(out, fmt.Sprintf("return %s after %d effects", r.ret, k))
+	}
+	return out
+}
+
+// resultUse says what each caller does with the result of chain.save / chain.remove.
+func resultUse(fd *ast.FuncDecl, qual string, scoped bool) []string {
+	var out []string
+	var visit func(n ast.Node, parent string)
+	isCall := func(e ast.Expr) (string, bool) {
+		c, ok := e.(*ast.CallExpr)
+		if !ok {
+			return "", false
+		}
+		sel, ok := c.Fun.(*ast.SelectorExpr)
+		if !ok || (sel.Sel.Name != "save" && sel.Sel.Name != "remove") {
+			return "", false
+		}
+		x := src(sel.X)
+		if (x == "chain" && scoped) || x == "groupChainImpl" || strings.HasSuffix(x, "groupChain") {
+			return sel.Sel.Name, true
+		}
+		return "", false
+	}
+	_ = visit
+	ast.Inspect(fd.Body, func(n ast.Node) bool {
+		switch x := n.(type) {
+		case *ast.ExprStmt:
+			if nm, ok := isCall(x.X); ok {
+				out = append(out, qual+": "+nm+" result ignored")
+			}
+		case *ast.AssignStmt:
+			for _, r := range x.Rhs {
+				if nm, ok := isCall(r); ok {
+					out = append(out, qual+": "+nm+" result assigned")
+				}
+			}
+		case *ast.ReturnStmt:
+			for _, r := range x.Results {
+				if nm, ok := isCall(r); ok {
+					out = append(out, qual+": "+nm+" result returned")
+				}
+			}
+		case *ast.IfStmt:
+			if nm, ok := isCall(x.Cond); ok {
+				out = append(out, qual+": "+nm+" result tested")
+			}
+			if u, ok := x.Cond.(*ast.UnaryExpr); ok {
+				if nm, ok := isCall(u.X); ok {
+					out = append(out, qual+": "+nm+" result tested")
+				}
+			}
+		}
+		return true
+	})
+	return out
+}
+
+// shape lists, in source order, the conditions, loop headers, selected calls, header assignments,
+// breaks and returns of fd — enough to pin comparison operators and branch order.
+func shape(fd *ast.FuncDecl) []string {
+	var out []string
+	ast.Inspect(fd.Body, func(n ast.Node) bool {
+		switch x := n.(type) {
+		case *ast.IfStmt:
+			c := src(x.Cond)
+			if x.Init != nil {
+				c = src(x.Init) + "; " + c
+			}
+			out = append(out, "if "+c)
+		case *ast.ForStmt:
+			h := "for"
+			if x.Init != nil {
+				h += " " + src(x.Init) + ";"
+			}
+			if x.Cond != nil {
+				h += " " + src(x.Cond)
+			}
+			if x.Post != nil {
+				h += "; " + src(x.Post)
+			}
+			out = append(out, h)
+		case *ast.BranchStmt:
+			out = append(out, x.Tok.String())
+		case *ast.ReturnStmt:
+			r := "return"
+			for i, e := range x.Results {
+				if i > 0 {
+					r += ","
+				}
+				r += " " + src(e)
+			}
+			out = append(out, r)
+		case *ast.AssignStmt:
+			for i, l := range x.Lhs {
+				ls := src(l)
+				if strings.HasPrefix(ls, "header.") && i < len(x.Rhs) {
+					out = append(out, ls+" "+x.Tok.String()+" "+src(x.Rhs[i]))
+				}
+			}
+		case *ast.CallExpr:
+			f := src(x.Fun)
+			if strings.HasSuffix(f, ".removeFromCommonAncestor") || strings.HasSuffix(f, ".AddGroup") || strings.HasSuffix(f, ".getGroup") ||
+				strings.HasSuffix(f, ".GetGroupByHeight") || f == "append" || strings.HasSuffix(f, ".MovePre") || strings.HasSuffix(f, ".Current") {
+				out = append(out, "call "+src(x))
+			}
+		}
+		return true
+	})
+	return out
+}
+
 // guards lists the conditions of the if-statements of AddGroup whose body returns, up to the call of save.
 func guards(fd *ast.FuncDecl) []string {
 	var out []string
@@ -315,6 +476,8 @@ func main() {
 	var saveEff, removeEff, addGuards, writers, saveCallers, removeCallers []string
 	var saveMem, removeMem []string
 	var addLock, ancestorLock, saveLock, removeLock []string
+	var removeRets, saveRets, uses []string
+	var availShape, triggerShape, headerRewrite []string
 	pkgVars := map[string]bool{}
 	var fields, flagReads []string
 	type fnBody struct {
@@ -379,10 +542,12 @@ func main() {
 			isGC := recvName(fd) != ""
 			scoped := isGC || name == "initGroupChain" // start-up builds the chain in a local named chain
 			if isGC && name == "save" {
+				saveRets = returnSites(fd)
 				saveEff, saveMem = split(canon(fd, effects(fd)))
 				found["save"] = true
 			}
 			if isGC && name == "remove" {
+				removeRets = returnSites(fd)
 				removeEff, removeMem = split(canon(fd, effects(fd)))
 				found["remove"] = true
 			}
@@ -404,7 +569,18 @@ func main() {
 					}
 				}
 			}
+			if isGC && name == "availableGroupsAt" {
+				availShape = shape(fd)
+			}
+			if name == "triggerOnChain" && fd.Recv != nil {
+				triggerShape = shape(fd)
+			}
 			if isGC && name == "AddGroup" {
+				for _, e := range shape(fd) {
+					if strings.HasPrefix(e, "header.") {
+						headerRewrite = append(headerRewrite, e)
+					}
+				}
 				addLock = canon(fd, lockEvents(fd))
 				addGuards = canon(fd, guards(fd))
 				found["AddGroup"] = true
@@ -413,6 +589,7 @@ func main() {
 			if fd.Recv != nil && len(fd.Recv.List) == 1 {
 				qual = src(fd.Recv.List[0].Type) + "." + name
 			}
+			uses = append(uses, resultUse(fd, qual, scoped)...)
 			// writers of the chain's state anywhere in the package
 			for _, e := range canon(fd, effects(fd)) {
 				kind := strings.Fields(e)[0]
@@ -521,6 +698,17 @@ func main() {
 	b.WriteString("\n/-- Lock operations inside `save` / `remove` themselves (they rely on their callers). -/\n")
 	b.WriteString(leanList("saveLockOps", saveLock))
 	b.WriteString(leanList("removeLockOps", removeLock))
+	b.WriteString("\n/-- Every `return` of `remove` / `save` with the number of effects that precede it in the source. -/\n")
+	b.WriteString(leanList("removeReturns", removeRets))
+	b.WriteString(leanList("saveReturns", saveRets))
+	b.WriteString("\n/-- What each caller does with the result of `save` / `remove`. -/\n")
+	b.WriteString(leanList("resultUses", uses))
+	b.WriteString("\n/-- The header fields `AddGroup` rewrites before `save`. -/\n")
+	b.WriteString(leanList("addHeaderRewrite", headerRewrite))
+	b.WriteString("\n/-- Shape (conditions, loops, calls, breaks, returns in source order) of `availableGroupsAt`. -/\n")
+	b.WriteString(leanList("availableShape", availShape))
+	b.WriteString("\n/-- Shape of `groupChainFork.triggerOnChain`. -/\n")
+	b.WriteString(leanList("triggerOnChainShape", triggerShape))
 	b.WriteString("\n" + leanList("saveCallers", saveCallers))
 	b.WriteString("\n" + leanList("removeCallers", removeCallers))
 	b.WriteString("\n/-- Fields of `type groupChain struct` — all the state a chain object has. -/\n")
